@@ -262,6 +262,11 @@ SQL_POOL_EXTRA = (
     ("join", ("K2", ("proj", ())), None, False),
     ("join", ("D0",), None, False),
     ("join", ("K2",), ("gt", R("d2"), R("b")), True),
+    # the BinaryOperation.apply(lhs, rhs) route on a caller-built Join (round 9: every join had gone through
+    # Relation.join or PartialJoin.apply, whose validation is a different code path)
+    ("join", ("K",), None, False, None, "direct"),
+    ("join", ("K",), P_D_GT_A, True, ("a",), "direct"),
+    ("join", ("Y", ("proj", ("a", "b"))), None, False, ("a",), "direct"),
 )
 SQL_WIDE = SQL_FULL + SQL_POOL_EXTRA
 
